@@ -225,9 +225,14 @@ class Ctl:
     def me(self) -> Rec | None:
         return self.th.get(R_get_ident())
 
-    def log(self, *ev: Any) -> None:
+    def log(self, *ev: Any) -> int:
         r = self.me()
         self.events.append((len(self.events), self.clock, r.name if r else "?") + ev)
+        return len(self.events) - 1
+
+    def Thread(self, target: Any, args: tuple = (), name: str = "T") -> "VThread":
+        """(the free-running tier's FreeCtl.Thread hands out real threads through the same call)"""
+        return VThread(target=target, args=args, name=name)
 
     def now(self) -> datetime.datetime:
         return datetime.datetime.fromtimestamp(self.clock, tz=UTC)
